@@ -100,6 +100,19 @@ def check_C06(run):
                       exhaustive=(run.tier != "quick"))
 
 
+def check_C10(run):
+    run.model_check("Order_q", "MC_Order.tla", "MC_Order_q.cfg", coverage=False)
+    if run.tier != "quick":
+        run.model_check("Order_r", "MC_Order.tla", "MC_Order_r.cfg", coverage=False)
+        run.model_check("Order_t", "MC_Order.tla", "MC_Order_t.cfg", coverage=False, timeout=3000)
+    g = Gen(run.seed * 1000 + 10)
+    run.conform("order", F.fam_order(g, "C10", sizes(run, 500, 4000), exhaustive3=True), ["C10."])
+    if run.tier != "quick":
+        g2 = Gen(run.seed * 1000 + 101)
+        run.conform("order_i64", F.fam_order(g2, "C10", 2000), ["C10."], variant="v1")
+    return run.finish(rule="all 512 3x3 patterns x every ordering method plus random m x n patterns up to 7x7 (empty rows/columns, dense rows, diagonal, block, arrow): ordering, tree, postorder, permuted view and A'A / A'+A structures compared with SluOrder; each ordering repeated with other values; 64-bit index build in the thorough tier")
+
+
 def check_C11(run):
     for c in (["d22"] if run.tier == "quick" else ["d22", "s23", "d32"]):
         run.model_check("Equil_" + c, "MC_Equil.tla", "MC_Equil_%s.cfg" % c, coverage=False)
@@ -125,6 +138,14 @@ def check_C13(run):
     types = {"d": 1.0, "s": 0.4, "z": 0.5, "c": 0.2} if run.tier == "quick" else FULL_TYPES
     run.conform("refine", merge(F.fam_cond(g, "C13", sizes(run, 700, 6000), types), F.fam_gssvx(g, "C13", sizes(run, 400, 4000), types)), ["C13."])
     return run.finish(rule="expert-driver runs with refinement on/off over well / ill conditioned and badly scaled systems, all Trans, zero right-hand-side columns; refinement-loop events validated against the loop automaton, BERR against the exact backward error of the returned X")
+
+
+def check_C14(run):
+    mc_factor(run, ["q", "c"], ["p"])       # SolveCorrect: the kernels' specification composes to a correct solve for N / T / C
+    g = Gen(run.seed * 1000 + 14)
+    types = {"d": 1.0, "z": 0.6, "s": 0.3, "c": 0.3} if run.tier == "quick" else FULL_TYPES
+    run.conform("kernels", F.fam_kernels(g, "C14", sizes(run, 500, 4000), types), ["C14."])
+    return run.finish(rule="factor pairs from ?gstrf on exact-domain matrices; sp_?trsv over every (uplo, trans, diag) combination and the documented lower-case spellings; ?gstrs nrhs 1..4 with padded B; sp_?gemv / sp_?gemm on rectangular matrices with alpha/beta in {0,1,-1,2,1/2}, strides, NaN-poisoned y for beta = 0")
 
 
 def check_C18(run):
